@@ -107,6 +107,7 @@ DEFAULT_PROFILE: dict[str, Any] = {
     "odd_media_pairs": False,       # binary under text/* or JSON, integer under text/*: accepted by the generator
     "component_unions": False,      # top-level union / array component schemas (forward references inside them)
     "multipart_const": True,        # was a C06 crash (fixed); switch kept for the regression replay
+    "prefix_items": False,          # tuple-like arrays written with 3.1 prefixItems (+ items)
 }
 
 
@@ -173,6 +174,17 @@ def schema_ir(draw, prof, comp_names: list[str], depth: int = 0, position: str =
         s = {"k": "ref", "name": draw(st.sampled_from(comp_names))}
     elif kind == "array":
         s = {"k": "array", "items": draw(schema_ir(prof, comp_names, depth + 1, "item"))}
+        if prof.get("prefix_items") and prof["union"] and position in ("prop", "item", "component") and draw(st.integers(0, 3)) == 0:
+            # a tuple-like array (3.1 prefixItems [+ items]): the generator reads it as a list of the union of all listed schemas.
+            # IR: items is that union, as_prefix says how many leading members are written under prefixItems (the rest, at most
+            # one, under items). Instances are positional.
+            un = draw(union_ir(prof, comp_names, depth + 1))
+            for key in ("nullable", "desc", "default"):
+                un.pop(key, None)
+            un["how"] = "anyOf"
+            n_members = len(un["members"])
+            if n_members >= 2:
+                s = {"k": "array", "items": un, "as_prefix": draw(st.sampled_from([n_members - 1, n_members - 1, n_members]))}
     elif kind == "union":
         s = draw(union_ir(prof, comp_names, depth))
     else:
@@ -250,6 +262,9 @@ def union_ir(draw, prof, comp_names, depth):
         for other in objs[1:]:
             for i, p in enumerate(other["props"]):
                 if i < len(first["props"]) and (i == 0 or draw(st.booleans())):
+                    _n = lambda x: x.lower().replace("_", "").replace("-", "")  # noqa: E731
+                    if any(j != i and _n(q[0]) == _n(first["props"][i][0]) for j, q in enumerate(other["props"])):
+                        continue   # the shared key must not coincide with another key of this member (name merging is C09's)
                     p[0] = first["props"][i][0]
                     if draw(st.integers(0, 3)) > 0:
                         # same key, different JSON type: the decoder must fall through the first branch cleanly
@@ -679,6 +694,12 @@ def render_schema(s: dict, ver: str = "3.0.3") -> dict:
         out = {"type": "string" if s.get("base") == "str" else "integer", "enum": vals}
     elif k == "const":
         out = {"const": s.get("value")}
+    elif k == "array" and s.get("as_prefix") and ver.startswith("3.1"):
+        members = s["items"]["members"]
+        n_pre = s["as_prefix"]
+        out = {"type": "array", "prefixItems": [render_schema(m, ver) for m in members[:n_pre]]}
+        if len(members) > n_pre:
+            out["items"] = render_schema(members[n_pre], ver)
     elif k == "array":
         out = {"type": "array", "items": render_schema(s.get("items", {"k": "any"}), ver)}
     elif k == "union":
